@@ -2,6 +2,7 @@
 From Coq Require Import List ZArith Bool String.
 Import ListNotations.
 Require Export BS.Common.Util BS.C16.Model BS.C16.Invocation.
+Require Import BS.Gen.C16_params.
 Local Open Scope Z_scope.
 
 (* ---- (a) what bigslice.FuncLocationsDiff returned ---- *)
@@ -55,6 +56,7 @@ Definition codec_res_eqb (a b : codec_res Z) : bool :=
 
 Definition outcome_eqb (a b : outcome Z) : bool :=
   match a, b with
+  | OSessErr, OSessErr => true
   | OTypeErr, OTypeErr => true
   | ORunErr, ORunErr => true
   | ORunPanic, ORunPanic => true
@@ -62,6 +64,12 @@ Definition outcome_eqb (a b : outcome Z) : bool :=
   | OArrived x, OArrived y => args_eqb x y
   | _, _ => false
   end.
+
+(* the model with the two switches as the source has them now (Gen/C16_params.v) *)
+Definition ztransport := transport Z Z zenc zdec encode_rejects_nil_pointer run_rejects_nil_result.
+Definition zfresh_transport := fresh_transport Z Z zenc zdec encode_rejects_nil_pointer run_rejects_nil_result.
+Definition zcodec := codec Z Z zenc zdec encode_rejects_nil_pointer.
+Definition sess_rejects (args : list zarg) : bool := run_rejects_nil_result && has_nil_result Z args.
 
 Definition no_results (args : list zarg) : bool :=
   forallb (fun a => match a with AResult _ => false | _ => true end) args.
@@ -77,16 +85,17 @@ Definition exact (c : case) : bool :=
       | _, _ => false
       end
   | CInv ps args known compiled o =>
-      outcome_eqb (transport Z Z zenc zdec known compiled ps args) (oworld o)
+      outcome_eqb (ztransport known compiled ps args) (oworld o)
       && option_eqb codec_res_eqb
-           (if typecheck Z ps args && no_results args then Some (codec Z Z zenc zdec ps args) else None)
+           (if negb (sess_rejects args) && typecheck Z ps args && no_results args
+            then Some (zcodec ps args) else None)
            (ocodec o)
       && ohdr o
       (* same arguments => same slice => same task names; when the model says the
          arguments change in transit the names are free *)
-      && (onames o || negb (outcome_eqb (transport Z Z zenc zdec known compiled ps args) (OArrived args)))
+      && (onames o || negb (outcome_eqb (ztransport known compiled ps args) (OArrived args)))
   | CDeps g ps args odeps o =>
-      outcome_eqb (fresh_transport Z Z zenc zdec g ps args) o
+      outcome_eqb (zfresh_transport g ps args) o
       && (negb (typecheck Z ps args)
           || (forallb (fun i => memZ i odeps) (record_deps Z args)
               && forallb (fun i => memZ i (record_deps Z args)) odeps))
@@ -127,8 +136,13 @@ Definition same_applied (ps : list ptype) (a b : list zarg) : bool :=
 
 Definition inv_ok (ps : list ptype) (args : list zarg) (known compiled : list Z) (o : iobs) : bool :=
   if negb (typecheck Z ps args) then
-    (* argument problems fail fast: rejected by Invocation() *)
-    outcome_eqb (oworld o) OTypeErr
+    (* argument problems fail fast: rejected by Invocation(), or, for a nil *Result,
+       already by Session.run *)
+    match oworld o with
+    | OTypeErr => true
+    | OSessErr => has_nil_result Z args
+    | _ => false
+    end
   else if negb (results_in Z known args && results_in Z compiled args) then true
   else if forallb2 (must_arrive Z) ps args then
     (* arrives intact, and compiling there gives the driver's task names *)
@@ -144,6 +158,7 @@ Definition inv_ok (ps : list ptype) (args : list zarg) (known compiled : list Z)
        (an implementation that does get the arguments across intact is not at fault) *)
     match oworld o with
     | ORunErr => true
+    | OSessErr => has_nil_result Z args
     | OArrived a => same_applied ps a args && onames o
     | _ => false
     end
